@@ -2,6 +2,8 @@ import HotstuffModel.Proofs.Reachable
 import HotstuffModel.Proofs.NodeInv6
 import HotstuffModel.Proofs.CommitLive
 import HotstuffModel.Proofs.LeaderWindow
+import HotstuffModel.Proofs.PacemakerStuck
+import HotstuffModel.Model.Timer
 /-!
 # C06 — Liveness with up to f crashed nodes (PARTIAL: enabling lemmas)
 
@@ -166,5 +168,90 @@ example :
     let b3 := mk 4 3 (cert b2)
     (run c (init c 1) [.msg (.propose b1), .msg (.propose b2), .msg (.propose b3)]).lastCommitted = 1 := by
   decide
+
+/-! ### The round timer (`consensus/src/timer.rs`, `HS.Timer`)
+
+"Each faulty leader delays progress only by a bounded number of round timeouts": the length of one
+round timeout is fixed by the timer — `Core` resets it when it enters a round and after every local
+timeout, and a reset puts the deadline at `now + timeout_delay` (`Gen.timerDeadline`, regenerated from
+the source; the engine `timer` runs the real `Timer` under the virtual clock against this model). -/
+
+theorem timer_resets_duration (t : Timer.T) (rs : List Nat) : (Timer.resets t rs).duration = t.duration := by
+  induction rs generalizing t with
+  | nil => rfl
+  | cons r rs ih => simpa [Timer.resets, Timer.reset] using ih (Timer.reset t r)
+
+theorem timer_resets_last (t : Timer.T) (rs : List Nat) (last : Nat) :
+    (Timer.resets t (rs ++ [last])).deadline = last + t.duration := by
+  induction rs generalizing t with
+  | nil => simp [Timer.resets, Timer.reset]
+  | cons r rs ih =>
+    simp only [List.cons_append, Timer.resets]
+    rw [ih (Timer.reset t r)]
+    simp [Timer.reset]
+
+/-- (L11) After any history of resets the timer is ready exactly from `timeout_delay` after the LAST
+reset on: never earlier (a round is not cut short), and from then on (a silent leader costs one
+`timeout_delay`, not more) — earlier deadlines do not matter. -/
+theorem timer_fires_exactly_duration_after_last_reset (t : Timer.T) (rs : List Nat) (last now : Nat) :
+    Timer.fired (Timer.resets t (rs ++ [last])) now = true ↔ last + t.duration ≤ now := by
+  simp [Timer.fired, timer_resets_last]
+
+/-- A fresh timer is ready exactly from `timeout_delay` after its creation on. -/
+theorem timer_new_fires_after_duration (d t0 now : Nat) :
+    Timer.fired (Timer.new d t0) now = true ↔ t0 + d ≤ now := by
+  unfold Timer.fired Timer.new
+  exact decide_eq_true_iff
+
+/-- Non-vacuity of L11: 1000 ms, created at 0, reset at 400 and at 900: silent at 1899, ready at 1900. -/
+example :
+    Timer.fired (Timer.resets (Timer.new 1000 0) [400, 900]) 1899 = false ∧
+    Timer.fired (Timer.resets (Timer.new 1000 0) [400, 900]) 1900 = true := by
+  decide
+
+/-! ### Why the premise "messages are not lost" is needed
+
+A TC is broadcast once (best effort) and timeouts carry only the sender's high QC, not the TC that let
+it enter its round.  The theorem below shows for the node model what the network simulation met on the
+real code with lossy cuts (DESIGN 0.7): if the copies of TC(r) are lost after some nodes (`Hi`) used it,
+and neither `Hi` nor the nodes left in round `r` (`Lo`) hold a quorum, then timers and timeouts alone
+never move anybody — the nodes of `Hi` drop the timeouts of round `r` unread, the nodes of `Lo` never
+gather a quorum for `r` or `r + 1`.  So C06 cannot be strengthened to lossy networks for this code. -/
+
+/-- (N1) However many of its own timer expiries and of the other nodes' timeouts follow (round `r`
+from `Lo`, round `r + 1` from `Hi`, all with high QCs older than `r`), a node of `Lo` stays in round
+`r`; and a node that is ahead drops every timeout of an earlier round without reading it. -/
+theorem lost_tc_leaves_nodes_stuck (c : Committee) (r : Nat) (Lo Hi : List Nat)
+    (hLo : NoQuorum c Lo) (hHi : NoQuorum c Hi) :
+    (∀ (s : Node) (es : List Event), Behind c r Lo Hi s → (∀ e ∈ es, StuckInput r Lo Hi e) →
+      (run c s es).round = r ∧ Behind c r Lo Hi (run c s es)) ∧
+    (∀ (s : Node) (t : Timeout), t.round < s.round → step c s (.msg (.timeout t)) = s) :=
+  ⟨fun s es hb he => ⟨(run_behind c r Lo Hi s es hLo hHi hb he).round, run_behind c r Lo Hi s es hLo hHi hb he⟩,
+   fun s t h => ahead_ignores_earlier_timeouts c s t h⟩
+
+/-- Non-vacuity of N1: four equal stakes (quorum 3), node 4 crashed, node 1 went on to round 8 with the
+lost TC(7), nodes 2 and 3 are left in round 7 with a high QC of round 5: the hypotheses hold, and a
+concrete exchange (own timers, timeouts of 3 for round 7 and of 1 for round 8) leaves node 2 in 7. -/
+example :
+    let c : Committee := ⟨[(1, 1), (2, 1), (3, 1), (4, 1)]⟩
+    let q5 : QC := { hash := .raw 0, round := 5, votes := [] }
+    let s : Node := { name := 2, round := 7, highQC := q5 }
+    let t7 : Timeout := { highQC := q5, round := 7, author := 3, sig := ⟨3, .timeout 7 5⟩ }
+    let t8 : Timeout := { highQC := q5, round := 8, author := 1, sig := ⟨1, .timeout 8 5⟩ }
+    NoQuorum c [2, 3] ∧ NoQuorum c [1] ∧ Behind c 7 [2, 3] [1] s ∧
+    (∀ e ∈ [Event.timer, .msg (.timeout t7), .msg (.timeout t8), .timer, .msg (.timeout t8)], StuckInput 7 [2, 3] [1] e) ∧
+    (run c s [.timer, .msg (.timeout t7), .msg (.timeout t8), .timer, .msg (.timeout t8)]).round = 7 := by
+  intro c q5 s t7 t8
+  have nq : ∀ S : List Nat, c.weight S < c.quorum → NoQuorum c S := by
+    intro S hS l hnd hsub
+    have := Q.weight_le_of_subset c.stake l S hnd hsub
+    rw [Committee.weight_eq] at hS ⊢
+    omega
+  refine ⟨nq _ (by decide), nq _ (by decide), ⟨rfl, by decide, by decide, aggOK_empty c, ?_, ?_⟩, ?_, by decide⟩
+  · intro m hm; simp [s] at hm
+  · intro m hm; simp [s] at hm
+  · intro e he
+    simp only [List.mem_cons, List.mem_nil_iff, or_false] at he
+    rcases he with rfl | rfl | rfl | rfl | rfl <;> simp [StuckInput, t7, t8, q5]
 
 end HS.C06
